@@ -13,6 +13,7 @@ import (
 	"fmt"
 	"math/rand"
 	"os"
+	"path/filepath"
 	"runtime"
 	"sort"
 	"strconv"
@@ -512,6 +513,8 @@ func TestVerifC09Stress(t *testing.T) {
 		idle[i] = do(x)
 	}
 	o := c09Stress{Kind: "stress", Stable: []int{3, 2, 1}}
+	precheckFile := filepath.Join(t.TempDir(), "epoch-9.yml")
+	os.WriteFile(precheckFile, []byte("epoch: 9\nversion: 1\n"), 0o644)
 	var mu sync.Mutex
 	stop := make(chan struct{})
 	var wg sync.WaitGroup
@@ -544,7 +547,8 @@ func TestVerifC09Stress(t *testing.T) {
 				case 3:
 					multi.RemoveEpochByConfigFilepath("/nonexistent")
 				case 4:
-					multi.HasEpochWithSameHashAsFile("/nonexistent")
+					// the --watch callback's pre-check, on a config file that exists (its content is hashed per loaded epoch)
+					multi.HasEpochWithSameHashAsFile(precheckFile)
 				}
 				atomic.AddInt64(&reloads, 1)
 				if lr.Intn(3) == 0 {
